@@ -10,5 +10,5 @@ cd /verif
 git -C /repo checkout -- . 
 git -C /repo status --short | grep -v '^??' 
 echo "seed=$name prop=$prop tier=$tier exit=$rc"
-grep -A3 "^VIOLATION" /tmp/try-$name-$prop.out | head -${4:-24}
+grep -a -A3 "^VIOLATION" /tmp/try-$name-$prop.out | head -${4:-24}
 tail -1 /tmp/try-$name-$prop.out
